@@ -20,11 +20,13 @@
 package main
 
 import (
+	"bytes"
+	"encoding/xml"
 	"fmt"
+	"io"
 	"os"
 	"path/filepath"
 	"runtime/debug"
-	"runtime/pprof"
 	"sort"
 	"strings"
 
@@ -427,13 +429,17 @@ func subsets(n, lo, hi int) [][]int {
 }
 
 func run(e *harness.Env) {
-	e.Rule = "codec: every column 0..18277 (+3 four-letter columns) x rows {1,2,9,10,99,100,1048576} through ParseCellRef/CellRef/ColumnToIndex/IndexToColumn/ParseRangeRef against an independent codec, plus a fixed list of malformed references; " +
-		"workbooks (full products): (cells) every subset of <=3 of the 9 addresses x every assignment of the 8 cell kinds x every distinct writing order; " +
-		"(merge) every subset x 3 merged ranges x stray value in the last covered cell y/n x 8 rotating kind assignments x in/reverse order; " +
-		"(ws) line break / tab inside a string value at every position of every subset of <=3 of 5 addresses x 5 string kinds; " +
-		"(sheets) two sheets, every pair of subsets of <=2 of 5 addresses x 8 kind rotations x 4 package layouts; " +
-		"(sst) shared / rich shared strings with reversed and padded string tables; (variants) t=\"n\", formula-cached number/bool/error, no <dimension>, no styles, blank styled cells. " +
-		"One harness case = one (workbook, view) pair, view in {grid,text,md,model}; non-trivial = everything except the single plain shared-string cell A1"
+	e.Rule = "codec: every column 0..18277 (+AAAA, ZZZZ, AAAAA) x rows {1,2,9,10,99,100,1048576} through ParseCellRef/CellRef/ColumnToIndex/IndexToColumn/ParseRangeRef against an independent codec, plus fixed lists of malformed / non-canonical references. " +
+		"Workbooks, one harness case per (workbook, view), view in {grid,text,md,model}: " +
+		"(cells) every subset of <=3 of the 9 addresses {A1,B1,A2,C3,Z1,AA1,AB7,ZZ2,A200} x kind vectors over the 8 cell kinds x writing orders " +
+		"[thorough: all 8^k vectors x every distinct order among in/reversed/rows-reversed/cells-reversed/rotated; subsets spanning ZZ2+A200 (702x200 grid): all 8^k in order + 64 stride vectors reversed. " +
+		"quick: all 8^k for k<=2, the 64 stride vectors (base+i*stride mod 8) for k=3, 8 rotations for ZZ2+A200 subsets; orders in/reversed]; " +
+		"(merge) every subset of <=3 addresses (incl. none) x merged ranges {A1:B2 | B1:C1 | A2:A3 | B1:C1+A2:A3} x value in the last covered cell y/n x rotating kind vectors (8 thorough, 4 quick) x in/reversed; " +
+		"(ws) a line break / tab inside a string value at every position of every subset of <=3 of 5 addresses x 5 string kinds x in/reversed; " +
+		"(sheets) two sheets: every pair of subsets of <=2 of 5 addresses (incl. empty) x rotating kinds (8 / 3) x 4 package layouts (standard, part numbers swapped against declared order, absolute targets, custom relationship ids); " +
+		"(sst) shared / rich shared strings with reversed, padded and reversed+padded string tables, one and two sheets; " +
+		"(variants) t=\"n\", formula-cached number/bool/error/text, no <dimension>, no styles part, deflated members, styled blank cells before/after/below the content. " +
+		"distinct = distinct descriptors; non-trivial = everything except the single plain shared-string cell A1"
 	e.Assumptions = []string{
 		"the writer verif/internal/gen/xlsxw emits valid SpreadsheetML (ECMA-376 part 1, 18.3/18.4) and its A1 codec (length-class construction) is correct; the codec's round trip and strict monotonicity over 0..18277 are re-verified at start-up",
 		"Markdown is read with a small GFM table splitter (unescaped pipes, delimiter row, excess cells ignored)",
@@ -441,14 +447,10 @@ func run(e *harness.Env) {
 	}
 	tmp := harness.Scratch()
 	defer os.RemoveAll(tmp)
+	selfTestWriter()
 	// many short-lived parses: collect less often (the live heap is a few MB; a 702 x 200 grid is 20 MB)
 	debug.SetGCPercent(1000)
 	debug.SetMemoryLimit(3 << 30)
-	if pf := os.Getenv("C17_PROF"); pf != "" { // development only
-		f, _ := os.Create(pf)
-		pprof.StartCPUProfile(f)
-		defer pprof.StopCPUProfile()
-	}
 
 	// C17_SPACES (development only): comma-separated subset of the sub-spaces to run
 	only := os.Getenv("C17_SPACES")
@@ -611,8 +613,12 @@ func bases(e *harness.Env, quick []int) []int {
 func rotKinds(base, i int) xlsxw.Kind { return xlsxw.Kinds[(base+i)%len(xlsxw.Kinds)] }
 
 func mergeSpace(e *harness.Env, tmp string) {
-	type mr struct{ ref, last string }
-	for _, m := range []mr{{"A1:B2", "B2"}, {"B1:C1", "C1"}, {"A2:A3", "A3"}} {
+	type mr struct {
+		refs []string // the merged ranges (non-overlapping)
+		last []string // the last covered cell of each range (none of them is in the address alphabet)
+	}
+	for _, m := range []mr{{[]string{"A1:B2"}, []string{"B2"}}, {[]string{"B1:C1"}, []string{"C1"}}, {[]string{"A2:A3"}, []string{"A3"}},
+		{[]string{"B1:C1", "A2:A3"}, []string{"C1", "A3"}}} {
 		for _, sub := range subsets(len(addrs), 0, 3) {
 			if large(sub) && !e.Thorough() {
 				continue
@@ -627,17 +633,19 @@ func mergeSpace(e *harness.Env, tmp string) {
 						cells = append(cells, mk(0, addrs[ai], rotKinds(base, i)))
 					}
 					if extra {
-						cells = append(cells, mk(0, m.last, rotKinds(base, 3)))
+						for j, l := range m.last {
+							cells = append(cells, mk(0, l, rotKinds(base, 3+j)))
+						}
 					}
 					for _, ord := range []string{"in", "rev"} {
 						if ord == "rev" && len(cells) < 2 {
 							continue
 						}
-						sheets := []lsheet{{name: "S1", cells: ordered(cells, ord), merges: []string{m.ref}}}
+						sheets := []lsheet{{name: "S1", cells: ordered(cells, ord), merges: m.refs}}
 						_, stray, _ := features(sheets)
-						out := "merge"
+						out := fmt.Sprintf("merge%d", len(m.refs))
 						if stray {
-							out = "merge-stray"
+							out += "-stray"
 						}
 						runCase(e, tmp, caseSpec{desc: baseDesc("merge", sheets, ord, wbopts{}), sheets: sheets, nontrivial: true, outcome: out})
 					}
@@ -807,6 +815,105 @@ func variantSpace(e *harness.Env, tmp string) {
 					sheets := []lsheet{{name: "S1", cells: ordered(bc, ord)}}
 					runCase(e, tmp, caseSpec{desc: baseDesc("variant", sheets, ord, wbopts{}, "variant", "blank-cell"), sheets: sheets, nontrivial: true, outcome: "blank-cell"})
 				}
+			}
+		}
+	}
+}
+
+// selfTestWriter validates the writer structurally on one workbook per package layout: every member is
+// well-formed XML, every content-type override and every relationship target names an existing member,
+// every <c> carries the reference it was given, inside the <row> with its row number.
+func selfTestWriter() {
+	cells := []lcell{mk(0, "D5", xlsxw.Blank)}
+	for i, k := range xlsxw.Kinds {
+		cells = append(cells, withWS(mk(0, addrs[i], k), []string{"", "nl", "tab"}[i%3]))
+	}
+	sheets := []lsheet{{name: "S1", cells: ordered(cells, "rev"), merges: []string{"A2:A3"}}, {name: "S2", cells: []lcell{mk(1, "C3", xlsxw.SharedRich)}}}
+	for _, o := range []wbopts{{}, {swapParts: true, relIDs: true}, {abs: true, reverseSST: true, padSST: 2}, {noStyles: true, noDim: true, deflate: true}} {
+		members := build(sheets, o).Members()
+		names := map[string][]byte{}
+		for _, m := range members {
+			names[m.Name] = m.Data
+			d := xml.NewDecoder(bytes.NewReader(m.Data))
+			for {
+				if _, err := d.Token(); err == io.EOF {
+					break
+				} else if err != nil {
+					panic(fmt.Sprintf("writer self-test: %s is not well-formed: %v", m.Name, err))
+				}
+			}
+		}
+		for _, need := range []string{"[Content_Types].xml", "_rels/.rels", "xl/workbook.xml", "xl/_rels/workbook.xml.rels", "xl/sharedStrings.xml"} {
+			if names[need] == nil {
+				panic("writer self-test: missing member " + need)
+			}
+		}
+		var ct struct {
+			Override []struct {
+				PartName string `xml:"PartName,attr"`
+			} `xml:"Override"`
+		}
+		xml.Unmarshal(names["[Content_Types].xml"], &ct)
+		for _, ov := range ct.Override {
+			if names[strings.TrimPrefix(ov.PartName, "/")] == nil {
+				panic("writer self-test: content-type override for missing part " + ov.PartName)
+			}
+		}
+		var rels struct {
+			R []struct {
+				ID     string `xml:"Id,attr"`
+				Target string `xml:"Target,attr"`
+			} `xml:"Relationship"`
+		}
+		xml.Unmarshal(names["xl/_rels/workbook.xml.rels"], &rels)
+		targets := map[string]string{}
+		for _, r := range rels.R {
+			t := "xl/" + r.Target
+			if strings.HasPrefix(r.Target, "/") {
+				t = r.Target[1:]
+			}
+			if names[t] == nil {
+				panic("writer self-test: relationship target missing: " + r.Target)
+			}
+			targets[r.ID] = t
+		}
+		var wbx struct {
+			Sheets []struct {
+				Name string `xml:"name,attr"`
+				RID  string `xml:"http://schemas.openxmlformats.org/officeDocument/2006/relationships id,attr"`
+			} `xml:"sheets>sheet"`
+		}
+		xml.Unmarshal(names["xl/workbook.xml"], &wbx)
+		if len(wbx.Sheets) != 2 || wbx.Sheets[0].Name != "S1" || wbx.Sheets[1].Name != "S2" {
+			panic("writer self-test: sheets not in declared order")
+		}
+		for i, sh := range wbx.Sheets {
+			var ws struct {
+				Rows []struct {
+					R     int `xml:"r,attr"`
+					Cells []struct {
+						R string `xml:"r,attr"`
+					} `xml:"c"`
+				} `xml:"sheetData>row"`
+			}
+			xml.Unmarshal(names[targets[sh.RID]], &ws)
+			var got []string
+			for _, rw := range ws.Rows {
+				for _, c := range rw.Cells {
+					if _, r, err := xlsxw.ParseRef(c.R); err != nil || r+1 != rw.R {
+						panic("writer self-test: cell " + c.R + " in wrong row element")
+					}
+					got = append(got, c.R)
+				}
+			}
+			var want []string
+			for _, c := range sheets[i].cells {
+				want = append(want, c.addr)
+			}
+			sort.Strings(got)
+			sort.Strings(want)
+			if strings.Join(got, ",") != strings.Join(want, ",") {
+				panic(fmt.Sprintf("writer self-test: sheet %s holds cells %v, want %v", sh.Name, got, want))
 			}
 		}
 	}
